@@ -228,12 +228,18 @@ Push(n, open) ==
   /\ Used + 1 + Need(nodes', stack') <= MaxNodes
   /\ UNCHANGED <<docs, phase, br>>
 
+MoreDocs == Len(docs) < MaxDocs
 Budget == MaxDecor - dec
 B(S) == IF Budget > 0 THEN S ELSE {0}
 Pick(S) == IF Sim /\ S # {} THEN {RandomElement(S)} ELSE S
+\* simulation only: bias random walks towards larger trees (an action guarded by Rarely(k)
+\* is taken with probability 1/k); never restricts model checking
+Rarely(k) == ~Sim \/ RandomElement(1..k) = 1
+Full == Used + Need(nodes, stack) >= MaxNodes
 
 AddScalar ==
   /\ CanAdd
+  /\ (stack = <<>> => Rarely(5))
   /\ LET ctx == SCtx(Role, InFlow)
          role == Role
          par == Par
@@ -275,6 +281,7 @@ Open ==
 
 Close ==
   /\ phase = "build" /\ stack # <<>>
+  /\ (Full \/ Rarely(4))
   /\ LET n == NK(nodes, Top)
      IN /\ (nodes[Top].k = "map" => n % 2 = 0)
         /\ (nodes[Top].st = "block" => n > 0)
@@ -300,11 +307,10 @@ EndDoc ==
 
 Finish ==
   /\ phase = "build" /\ nodes = <<>> /\ docs # <<>>
+  /\ (Full \/ ~MoreDocs \/ Rarely(2))
   /\ phase' = "done"
   /\ br' \in Pick(IF Budget > 0 THEN Breaks ELSE Breaks \cap {"LF"})
   /\ UNCHANGED <<docs, nodes, stack, dec>>
-
-MoreDocs == Len(docs) < MaxDocs
 
 Init == docs = <<>> /\ nodes = <<>> /\ stack = <<>> /\ dec = 0 /\ phase = "build" /\ br = "LF"
 
